@@ -329,7 +329,7 @@ def generator_sorted_dedup(ctx, rule):
                                  "counts are inflated"})
 
 
-def counters(ctx, rule, need_clear=True):
+def counters(ctx, rule, need_clear=True, check_len_inc=True):
     """counter vector: reset and resized to the record count before counting; record count +1 per add"""
     r = _prepare_chain(ctx, rule)
     if r is None:
@@ -377,6 +377,8 @@ def counters(ctx, rule, need_clear=True):
         ctx.fail(rule, key, b.where(),
                  "counter vector is not `clear(); resize(self.<record count>, 0)` before the unchecked increments",
                  {"witness": "counts of the previous query survive / postings index past the end of the vector"})
+        return
+    if not check_len_inc:
         return
     # record count incremented exactly once per add, in the method that writes postings
     adders = []
